@@ -6,6 +6,7 @@ From RV Require Import Base.Wire Base.Text Lang.StmtAst Lang.Transl Lang.StmtSem
 From RV Require Import Lang.StmtSimple.
 From RV Require Import Proofs.SkeletonP Proofs.SimTopP Proofs.SimDemoP Proofs.TranslAcceptP Proofs.SimAcceptP.
 From RV Require Import Lang.FnRet Proofs.FnRetP Lang.TupleOrder Proofs.TupleOrderP.
+From RV Require Import Lang.NoReinit Proofs.NoReinitP.
 Import ListNotations.
 Open Scope Z_scope.
 
@@ -195,6 +196,26 @@ Theorem C01_first_assignment_becomes_assignment : forall pn x t id l, tmem x pn 
   map (rewrite_if pn) (drop_hoisted pn (NDecl x t (XE id) false :: l)) = NAssign x (XE id) :: map (rewrite_if pn) (drop_hoisted pn l).
 Proof. exact first_assignment_kept. Qed.
 Print Assumptions C01_first_assignment_becomes_assignment.
+
+(* NOTHING IS RE-INITIALISED, for every program the translation accepts (hoisting at any depth, in the prologue and in
+   the main loop, tuples, every nesting of if / elif / else / while / for): no node of setup() or loop(), at any depth,
+   declares or assigns a variable with the type's default value ([nodef_prog], Lang/NoReinit.v) - the default
+   initialisers of hoisted names and of names first assigned inside the main loop all sit in GLOBAL declarations,
+   which run once.  This is the universally quantified statement both repaired findings contradicted: before the
+   repair loop() began with `T z = <default>;` for a name hoisted inside `while True:` (F-C01-loop-local-reinit) and an
+   enclosing block contained `z = <default>;` for a name hoisted twice (F-C01-hoisted-decl-reinit).  Proof: every block
+   leaves hoisted declarations only at its own top level and only for names it introduced; the enclosing block promotes
+   exactly those names and its rewrite drops them; at setup depth 0 and at the body level of the main loop
+   promo_decls emits no node. *)
+Theorem C01_nothing_is_reinitialised : forall p c, transl p = Some c -> nodef_prog c = true.
+Proof. exact transl_default_free. Qed.
+Print Assumptions C01_nothing_is_reinitialised.
+
+Example C01_nothing_is_reinitialised_nonvacuous :
+  (exists c, transl looplocal = Some c /\ nodef_prog c = true /\ existsb (fun g => is_def (g_init g)) (c_globals c) = true) /\
+  (exists c, transl reinit = Some c /\ nodef_prog c = true /\ existsb (fun g => is_def (g_init g)) (c_globals c) = true).
+Proof. exact default_free_demo. Qed.
+Print Assumptions C01_nothing_is_reinitialised_nonvacuous.
 
 (* the witness of the repaired finding: `w = 0; while w < 2: (for k in range(1 - w): z = 5); w = w + 1` then
    `mon.write(z)`: Python writes 5, and so does the device (it used to write 0). *)
